@@ -102,6 +102,13 @@ def _sig(v):
                     atoms.append(key + ":class-missing")
             for m in sorted(g - may):
                 atoms.append(key + ":unexpected-class")
+        if op == "nest_jar":
+            alts = [set(a.keys()) for a in _alts(exp.get("names") or {})]
+            may = set.union(*alts) if alts else set()
+            for m in sorted(others - set((rec.get("others") or {}).keys())):
+                atoms.append("names:created-class-stored-under-entry-name-without-.class" if m in may else "others:entry-appeared")
+            if set((rec.get("others") or {}).keys()) - others:
+                atoms.append("others:entry-lost")
         for cn, ec in (exp.get("classes") or {}).items():
             gc = (got.get("classes") or {}).get(cn)
             if gc is None:
